@@ -59,11 +59,12 @@ type State struct {
 	guards []string
 	alloc  Term
 	tags   []string
+	dead   bool // path condition is syntactically false
 	epoch  int // bumped by havoc-all: memories first touched afterwards are unrelated to their entry values
 }
 
 func (s *State) clone() *State {
-	n := &State{vars: make(map[types.Object]Term, len(s.vars)), mem: make(map[string]Term, len(s.mem)), alloc: s.alloc, epoch: s.epoch}
+	n := &State{vars: make(map[types.Object]Term, len(s.vars)), mem: make(map[string]Term, len(s.mem)), alloc: s.alloc, epoch: s.epoch, dead: s.dead}
 	for k, v := range s.vars {
 		n.vars[k] = v
 	}
@@ -167,6 +168,9 @@ func (x *Exec) posOf(n ast.Node) string {
 
 // oblige records a proof obligation: pc ∧ guards ⇒ goal.
 func (x *Exec) oblige(st *State, kind, label string, n ast.Node, goal string) {
+	if st.dead {
+		return
+	}
 	if len(st.guards) > 0 {
 		goal = imp(and(st.guards...), goal)
 	}
@@ -204,6 +208,9 @@ func (x *Exec) oblige(st *State, kind, label string, n ast.Node, goal string) {
 
 // cover records a reachability (vacuity) guard: pc must be satisfiable.
 func (x *Exec) cover(st *State, label string, n ast.Node) {
+	if st.dead {
+		return
+	}
 	name := x.fi.Key + "/cover[" + label + "]"
 	o := &Obligation{Name: name, Func: x.fi.Key, Kind: "cover", Label: label, Path: strings.Join(st.tags, "/"), Pos: x.posOf(n), Expect: "sat"}
 	if x.con != nil {
